@@ -61,6 +61,37 @@ theorem auth_wire (D : Digests) (hD : D.WF) (alg : AuthAlg) (key : Bytes) (hk : 
   subst h4
   rw [splice_mid P (List.replicate 12 0) S mac (by simp [hm])]
 
+/-- RFC 3414 §6.3.2 / §7.3.2 as a receiver performs it: zero the 12 octets at `off`, compute HMAC-96 over
+the whole message, compare with the octets that were there -/
+def rfcVerify (h : Bytes → Bytes) (key : Bytes) (off : Nat) (dg : Bytes) : Bool :=
+  Spec.hmac96 h key (dg.take off ++ (List.replicate 12 0 ++ dg.drop (off + 12))) == (dg.drop off).take 12
+
+/-- **C09.receiver_accepts**: the receiver's view of `auth_wire` — every datagram an authenticated session
+emits passes the RFC 3414 incoming check under the same key, at the offset of `msgAuthenticationParameters`. -/
+theorem receiver_accepts (D : Digests) (hD : D.WF) (alg : AuthAlg) (key : Bytes) (hk : key.length = alg.keySize)
+    (m : V3Msg) (hph : m.usm.authParams = List.replicate 12 0) (buf : Buf) (hb : buf.cells = [])
+    (d enc : Bytes) (hd : encMsgData m.data = some d) (he : encV3 m = some enc) (hfit : enc.length ≤ Buf.cap) :
+    ∃ dg, finishV3 D (.digest alg key) m buf = .ok dg ∧
+      rfcVerify (D.hash alg) key (v3Prefix m d).length dg = true := by
+  obtain ⟨h1, h2⟩ := auth_wire D hD alg key hk m hph buf hb d enc hd he hfit
+  refine ⟨_, h1, ?_⟩
+  have hm : (Spec.hmac96 (D.hash alg) key enc).length = 12 := by
+    unfold Spec.hmac96 Spec.hmac
+    rw [List.length_take, hash_len D hD]
+    cases alg <;> decide
+  unfold rfcVerify
+  generalize v3Prefix m d = P at *
+  generalize v3Suffix m d = S at *
+  have e1 : (P ++ (Spec.hmac96 (D.hash alg) key enc ++ S)).take P.length = P := List.take_left
+  have e2 : (P ++ (Spec.hmac96 (D.hash alg) key enc ++ S)).drop (P.length + 12) = S := by
+    rw [← List.append_assoc]
+    exact List.drop_left' (by rw [List.length_append, hm])
+  have e3 : ((P ++ (Spec.hmac96 (D.hash alg) key enc ++ S)).drop P.length).take 12 =
+      Spec.hmac96 (D.hash alg) key enc := by
+    rw [List.drop_left]; exact List.take_left' hm
+  rw [e1, e2, e3, ← h2]
+  exact beq_self_eq_true _
+
 /-- **C09.noauth_wire**: without a key nothing is signed: the datagram is the plain
 serialisation, the field is the empty OCTET STRING and the session's auth flag is clear -/
 theorem noauth_wire (D : Digests) (m : V3Msg) (buf : Buf) (hb : buf.cells = []) (d enc : Bytes)
